@@ -547,6 +547,16 @@ def cmp_states(alphabet, maxlen):
             for wa in range(3):
                 for wb in range(3):
                     ops += ["reset"] + build(0, a, wa) + build(1, b, wb) + ["cmp 0 1", "cmp 1 0", "cmp 0 0"]
+    # longer operands: equal up to position k and then smaller / greater / ended, for every k
+    for n in range(0, 7):
+        a = [5 + (i % 2) for i in range(n)]
+        others = [a[:k] for k in range(n)] + [a + [5]]
+        for k in range(n):
+            others.append(a[:k] + [a[k] - 1] + a[k + 1:])
+            others.append(a[:k] + [a[k] + 1] + a[k + 1:])
+            others.append(a[:k] + [a[k] + 1])
+        for b in others + [a]:
+            ops += ["reset"] + build(0, a, 0) + build(1, b, 1 if len(b) % 2 else 2) + ["cmp 0 1", "cmp 1 0"]
     # extreme values (a comparison by subtraction or through an unsigned type goes wrong only here)
     ext = [-2147483648, -1, 0, 1, 2147483647]
     eseqs = [[]] + [[x] for x in ext] + [[x, y] for x in (ext[0], ext[2], ext[4]) for y in (ext[0], ext[4])]
